@@ -7,7 +7,7 @@ from ..harness import scn, gen, obs as O, pyeval, impl
 from . import base_scn, compose
 
 pid = 'C14'
-gen_modules = ['tr_state', 'tr_validators', 'tr_has_patcher', 'tr_contracts', 'tr_decorators', 'tr_pin_contracts', 'tr_extractor', 'tr_pin_introspect', 'tr_rest_validators', 'tr_rest_patcher', 'tr_rest_state', 'tr_rest_contractsconst', 'tr_rest_records', 'tr_pin_invariant', 'tr_invariant']
+gen_modules = ['tr_state', 'tr_validators', 'tr_has_patcher', 'tr_contracts', 'tr_decorators', 'tr_pin_contracts', 'tr_attach', 'tr_extractor', 'tr_pin_introspect', 'tr_rest_validators', 'tr_rest_patcher', 'tr_rest_state', 'tr_rest_contractsconst', 'tr_rest_records', 'tr_pin_invariant', 'tr_invariant']
 model_targets = ['Sem/ScnObj.v']
 hand_modelled = ['coq/Sem/ObjModel.v: get_contracts / unwrap over the heap of function objects (hand-written; source pinned)',
                  'record.validate / init_all: checked on the implementation only']
